@@ -192,9 +192,17 @@ pub trait DateRoll {
         }
         match days.cmp(&0_i8) {
             Ordering::Equal => self.roll_forward_bus_day(date),
-            Ordering::Less => self
-                .add_bus_days(&self.roll_backward_bus_day(date), days + 1, settlement)
-                .unwrap(),
+            Ordering::Less => {
+                // settlement is enforced backwards, also when `days + 1` is zero
+                let new_date = self
+                    .add_bus_days(&self.roll_backward_bus_day(date), days + 1, false)
+                    .unwrap();
+                if settlement {
+                    self.roll_backward_settled_bus_day(&new_date)
+                } else {
+                    new_date
+                }
+            }
             Ordering::Greater => self
                 .add_bus_days(&self.roll_forward_bus_day(date), days - 1, settlement)
                 .unwrap(),
